@@ -38,6 +38,7 @@ type Options struct {
 	FallbackMs    int
 	Deadline      time.Time
 	MaxViolations int
+	Replay        *ReplaySpec
 }
 
 func defaultOptions() Options {
@@ -90,6 +91,33 @@ type Violation struct {
 	Decisions string               `json:"decisions"`
 	Inputs  []inputVar             `json:"inputs"`
 	Extra   map[string]interface{} `json:"extra,omitempty"`
+	Stack   []ReplayDecision       `json:"stack,omitempty"` // the non-symbolic decisions of the path (choices, crash points, scheduler)
+}
+
+type ReplayDecision struct {
+	Kind   string `json:"kind"`
+	Chosen int    `json:"chosen"`
+}
+
+// ReplaySpec fixes inputs and non-symbolic decisions for a concrete re-run inside the interpreter.
+type ReplaySpec struct {
+	Model map[string]string `json:"model"`
+	Stack []ReplayDecision  `json:"stack"`
+	pos   int
+}
+
+func (m *Machine) replayStack() []ReplayDecision {
+	var out []ReplayDecision
+	for i, d := range m.stack {
+		if i >= m.dpos {
+			break
+		}
+		if d.kind == "br" || d.kind == "conc" {
+			continue
+		}
+		out = append(out, ReplayDecision{d.kind, d.chosen})
+	}
+	return out
 }
 
 type PathSample struct {
@@ -193,7 +221,7 @@ type Machine struct {
 	ufParent      map[*Term]*Term
 	lastViolation *Violation
 	endModel      map[string]string
-	freshSeq, sigSeq, keySeq, hashSeq, fmtOpaque int
+	freshSeq, sigSeq, keySeq, hashSeq, fmtOpaque, jsonSeq int
 }
 
 type KnownFinding struct {
@@ -227,6 +255,22 @@ func (m *Machine) note(kind, msg string) {
 
 // decide returns the alternative to take at this decision point. feasible may be nil (always feasible).
 func (m *Machine) decide(kind string, n int, feasible func(i int) bool) int {
+	if rp := m.opts.Replay; rp != nil && feasible == nil {
+		c := 0
+		if rp.pos < len(rp.Stack) {
+			if rp.Stack[rp.pos].Kind != kind {
+				panic(pathEnd{kind: "engine", msg: fmt.Sprintf("replay: decision %d is %s, recorded %s", rp.pos, kind, rp.Stack[rp.pos].Kind)})
+			}
+			c = rp.Stack[rp.pos].Chosen
+			rp.pos++
+		}
+		if c >= n {
+			c = n - 1
+		}
+		m.stack = append(m.stack, decision{kind: kind, chosen: c, n: c + 1, tested: true, forced: true})
+		m.dpos++
+		return c
+	}
 	if m.dpos < len(m.stack) {
 		d := &m.stack[m.dpos]
 		if d.kind != kind {
@@ -706,6 +750,7 @@ func (m *Machine) violation(id, msg, pos, kind string, model map[string]*big.Int
 	v := Violation{ID: id, Msg: msg, Pos: pos, Kind: kind, Model: modelStrings(model),
 		Choices: append([]int{}, m.choices...), Decisions: m.decisionString(), Inputs: append([]inputVar{}, m.inputs...)}
 	v.Extra = map[string]interface{}{"hashes": m.exportHashes(model)}
+	v.Stack = m.replayStack()
 	m.lastViolation = &v
 	panic(pathEnd{kind: "violation", msg: id})
 }
@@ -798,7 +843,7 @@ func (m *Machine) resetPath() {
 		m.model = nil // replaying a prefix: the model is re-installed at its last decision
 	}
 	m.ufParent = map[*Term]*Term{}
-	m.freshSeq, m.sigSeq, m.keySeq, m.hashSeq = 0, 0, 0, 0
+	m.freshSeq, m.sigSeq, m.keySeq, m.hashSeq, m.jsonSeq = 0, 0, 0, 0, 0
 }
 
 // runPath executes the harness once along the current decision stack.
@@ -974,7 +1019,7 @@ func (m *Machine) exploreJob(entry *ssa.Function, job []decision) bool {
 			}
 		case "panic":
 			v := &Violation{ID: "uncaught_panic", Msg: end.msg, Kind: "panic", Decisions: m.decisionString(),
-				Choices: append([]int{}, m.choices...), Inputs: append([]inputVar{}, m.inputs...), Model: m.endModel}
+				Choices: append([]int{}, m.choices...), Inputs: append([]inputVar{}, m.inputs...), Model: m.endModel, Stack: m.replayStack()}
 			if kf := m.matchKnown(v); kf != nil {
 				m.knownHit[kf.AssertID]++
 			} else {
@@ -1224,8 +1269,8 @@ func scanReach(entry *ssa.Function) []string {
 				}
 				if callee.Pkg != nil && strings.HasSuffix(callee.Pkg.Pkg.Path(), "internal/verifvp") {
 					if callee.Name() == "Reach" && len(cc.Args) == 1 {
-						if c, ok := cc.Args[0].(*ssa.Const); ok {
-							labels[constantString(c)] = true
+						if c, ok := cc.Args[0].(*ssa.Const); ok && !strings.HasSuffix(constantString(c), "?") {
+							labels[constantString(c)] = true // labels ending in "?" are optional witnesses
 						}
 					}
 					continue
